@@ -341,6 +341,10 @@ func (st *ImmuStore) valueRefFrom(tx, hc uint64, indexedVal []byte) (ValueRef, e
 
 // Resolve ...
 func (v *valueRef) Resolve() (val []byte, err error) {
+	if int64(v.valLen) > int64(v.st.maxValueLen) {
+		return nil, fmt.Errorf("%w: value length %d exceeds the maximum value length", ErrCorruptedData, v.valLen)
+	}
+
 	refVal := make([]byte, v.valLen)
 
 	if v.kvmd != nil && v.kvmd.ExpiredAt(time.Now()) {
